@@ -28,6 +28,7 @@ func c12Candidates(lvl int) []string {
 		gen.Seq(gen.Lit("1.", "1-", "1-alpha-", "1-rc", "1.0.", "1-sp-", "1-foo-"), m),
 		gen.Seq(m, gen.Lit("", ".1", "-1", "-rc")),
 		gen.SlotFamily("maven"),
+		gen.Seq(gen.Lit("1.", "1-", "1-rc-"), gen.Lit("100000000000000000000", "99999999999999999999", "18446744073709551616", "9223372036854775808")),
 		gen.Seq(gen.Lit("1.", "1-", "1-alpha-", "1-rc", "1.0."), gen.Alt(gen.LeadingZeros, gen.Lit("7", "8", "9", "10", "11"))),
 		gen.Lit("1-0.1", "1-0.2", "1-0", "1-0.0.1", "2.0-ga.1", "2.0-ga.2", "2.0-final.1", "2.0-release.0.1"),
 		core,
